@@ -933,6 +933,9 @@ fn check_globals(m: &Model, ind: &EnergyIndicators, origin: &str, obs: &mut Obs)
     let vn = r.vol_net();
     let exposed = r.exposed_area();
     let comp = if exposed == 0.0 { 0.0 } else { r2(vg) / exposed };
+    // the volume is a 2-decimal figure: a sum that lands on x.xx5 may be rounded either way (one step of 0.01), the
+    // exposed area carries the rounding of its terms
+    let comp_tol = (0.0101 + 0.0056 * comp) / exposed.max(1.0) + 1e-5;
     let mut bad = |name: &str, got: f64, want: f64, obs: &mut Obs| {
         if !close(got, want, 2e-5, 0.0056) {
             obs.violation(&format!("globals:{}", name), format!("{}: {} = {} but reference {:.4}", origin, name, got, want), ctx());
@@ -946,7 +949,7 @@ fn check_globals(m: &Model, ind: &EnergyIndicators, origin: &str, obs: &mut Obs)
     bad("props.global.vol_env_net", g.vol_env_net as f64, vn, obs);
     if exposed > 0.0 && exposed < 0.01 {
         obs.ambiguous("exposed area below 0.01 m2");
-    } else if !close(ind.compactness as f64, comp, 1e-4, 0.0056 / exposed.max(1.0) + 1e-5) || !close(g.compactness as f64, comp, 1e-4, 0.0056 / exposed.max(1.0) + 1e-5) {
+    } else if !close(ind.compactness as f64, comp, 1e-4, comp_tol) || !close(g.compactness as f64, comp, 1e-4, comp_tol) {
         obs.violation("globals:compactness", format!("{}: compactness = {} / {} but V/A = {:.5} (V={:.3}, A={:.3})", origin, ind.compactness, g.compactness, comp, vg, exposed), ctx());
     }
     // ventilation rate reported with the indicators == the one used inside the U-value calculation
